@@ -156,7 +156,7 @@ func Run(r *core.Run) {
 		for _, t := range keys.Types {
 			lk = append(lk, keys.New(t, 2), leadingZeroKey(t))
 			if t != "Ed25519" {
-				lk = append(lk, keys.WithTwoLeadingZeros(t, 0), keys.WithTwoLeadingZeros(t, 1))
+				lk = append(lk, keys.WithTwoLeadingZeros(t, 0), keys.WithTwoLeadingZeros(t, 1), keys.WithBothLeadingZeros(t))
 			}
 		}
 		for _, k := range lk {
@@ -210,6 +210,69 @@ func Run(r *core.Run) {
 			})
 			r.Observe(id)
 		}
+	}
+	// signature halves written as the residue plus the group order, where that still fits the width (always on P-521; on the other
+	// curves for a small s, so the key is made to measure: d = (s*k - e) / r for a chosen nonce k and s): (r, s) verifies, the
+	// respelled halves are other bytes and must not
+	for _, t := range []string{"secp256k1", "P-256", "P-384", "P-521"} {
+		t := t
+		curve := keys.Curve(t)
+		n, w := curve.Params().N, keys.Width(t)
+		hdr := keys.New(t, 0).Header()
+		input := enc.EncodeToString(hdr) + "." + enc.EncodeToString([]byte(`{"respelled":true}`))
+		var dg []byte
+		switch t {
+		case "P-384":
+			h := sha512.Sum384([]byte(input))
+			dg = h[:]
+		case "P-521":
+			h := sha512.Sum512([]byte(input))
+			dg = h[:]
+		default:
+			h := sha256.Sum256([]byte(input))
+			dg = h[:]
+		}
+		e := new(big.Int).SetBytes(dg)
+		if excess := len(dg)*8 - n.BitLen(); excess > 0 {
+			e.Rsh(e, uint(excess))
+		}
+		k := big.NewInt(7)
+		rx, _ := curve.ScalarBaseMult(k.Bytes())
+		rr := new(big.Int).Mod(rx, n)
+		s0 := big.NewInt(0x5eeded)
+		d := new(big.Int).Mul(s0, k)
+		d.Sub(d, e).Mul(d, new(big.Int).ModInverse(rr, n)).Mod(d, n)
+		qx, qy := curve.ScalarBaseMult(d.Bytes())
+		if !ecdsa.Verify(&ecdsa.PublicKey{Curve: curve, X: qx, Y: qy}, dg, rr, s0) {
+			core.Engine("c15: made-to-measure key for %s does not verify its own signature", t)
+		}
+		jwk := map[string]any{"kty": "EC", "crv": t, "x": enc.EncodeToString(qx.FillBytes(make([]byte, w))), "y": enc.EncodeToString(qy.FillBytes(make([]byte, w)))}
+		type variant struct {
+			name string
+			r, s *big.Int
+			ok   bool
+		}
+		vs := []variant{{"as-made", rr, s0, true}, {"s-plus-n", rr, new(big.Int).Add(s0, n), false}, {"s-plus-2n", rr, new(big.Int).Add(s0, new(big.Int).Lsh(n, 1)), false},
+			{"r-plus-n", new(big.Int).Add(rr, n), s0, false}, {"both-plus-n", new(big.Int).Add(rr, n), new(big.Int).Add(s0, n), false}, {"s-negated", rr, new(big.Int).Sub(n, s0), true}}
+		for _, v := range vs {
+			v := v
+			if v.r.BitLen() > 8*w || v.s.BitLen() > 8*w {
+				continue
+			}
+			sig := append(v.r.FillBytes(make([]byte, w)), v.s.FillBytes(make([]byte, w))...)
+			compact := input + "." + enc.EncodeToString(sig)
+			id := fmt.Sprintf("respelled-signature-halves/%s/%s", t, v.name)
+			r.Case(id, func() *core.Fail {
+				_, err := jwsutil.VerifyJWS(compact, jwkOf(jwk))
+				err2 := jwsutil.VerifySignature(jwkOf(jwk), sig, []byte(input))
+				if (err == nil) != v.ok || (err2 == nil) != v.ok {
+					return &core.Fail{Key: "respelled-signature-halves/" + t + "/" + v.name, What: fmt.Sprintf("signature variant %s: VerifyJWS says %v, VerifySignature says %v, expected verifies=%v", v.name, err, err2, v.ok), Detail: map[string]any{"jwk": jwk, "jws": compact}}
+				}
+				return nil
+			})
+			r.Observe(id)
+		}
+		r.Class("respelled-signature-halves")
 	}
 	// a JWK that names a point (X, 0) - on none of the curves, of order two for the doubling formulas - and a signature made from
 	// public values alone (r = x(k*G) mod n, s = e/k mod n, k = 1..16): nobody holds a key for it, so nothing verifies under it
